@@ -334,3 +334,35 @@ fn c05_sto_header_truncated() {
         _ => { assert!(false); }
     }
 }
+
+/// the skipper on every proper prefix of "storage header + minimal standard header": incomplete
+/// for every non-empty prefix (never a hard error), "no message" on empty input; hint <= shortfall
+#[kani::proof]
+#[kani::stub(alloc::fmt::format, fmt_stub)]
+#[kani::unwind(24)]
+fn c05_consume_msg_prefix() {
+    let mut buf: [u8; 20] = kani::any();
+    buf[0] = b'D';
+    buf[1] = b'L';
+    buf[2] = b'T';
+    buf[3] = 1;
+    let n: usize = kani::any();
+    kani::assume(n < 20);
+    match dlt_consume_msg(&buf[..n]) {
+        Ok((_, None)) => { assert!(n == 0); }
+        Err(DltParseError::IncompleteParse { needed }) => {
+            assert!(n >= 1);
+            if let Some(k) = needed {
+                assert!(k.get() >= 1 && k.get() <= 20 - n);
+            }
+        }
+        _ => { assert!(false); }
+    }
+    if n >= 1 {
+        match skip_storage_header(&buf[..n]) {
+            Err(DltParseError::IncompleteParse { .. }) => {}
+            Ok(_) => { assert!(n >= 16); }
+            Err(_) => { assert!(false); }
+        }
+    }
+}
